@@ -139,6 +139,7 @@ def run_program(ctx, rng):
         o = ctx.call(f, *operands)
         wit = {"op": name, "dtype": dt, "trace": trace[-8:], "operands": [describe(v) for v in operands if is_array(v)]}
         if not o.ok:
+            prog.failed(operands, info)
             if isinstance(o.exc, Warning):
                 ctx.violation(f"complex-warning:{name.split(':')[0]}", f"{name} on {dt} data emitted {o.exc!r} (imaginary part discarded)", wit)
             continue
